@@ -1,4 +1,5 @@
 import Libp2pModel.Proofs.C39_Term
+import Libp2pModel.Proofs.C39_Mon2
 /-!
 # C39 — iterative lookups are bounded, terminate and return the closest responders
 
@@ -70,24 +71,24 @@ def stepM (ms : Mon × Iter) (op : Op) : (Mon × Iter) × Option String :=
   let v := monStep ms.1 op r.2 (observe r.1)
   ((v.1, r.1), v.2)
 
-def Linked (ms : Mon × Iter) : Prop := Inv ms.2 ∧ R ms.1 ms.2
+def Linked (ms : Mon × Iter) : Prop := Inv ms.2 ∧ R ms.1 ms.2 ∧ R2 ms.1 ms.2
 
 theorem linked_step (ms : Mon × Iter) (op : Op) (h : Linked ms) :
     Linked (stepM ms op).1 ∧ (stepM ms op).2 = none := by
-  obtain ⟨hv, hr⟩ := mon_step_ok h.1 h.2 op
-  exact ⟨⟨(h.1.step op).1, hr⟩, hv⟩
+  obtain ⟨hv, hr⟩ := mon_step_ok h.1 h.2.1 h.2.2 op
+  exact ⟨⟨(h.1.step op).1, hr, r2_step h.1 h.2.1 h.2.2 op⟩, hv⟩
 
 /-- **Spec ⊇ model**: along every run of the model, the trace monitor `monStep` (the executable
 statement evaluated by the driver on the implementation's outputs) accepts every step. -/
 theorem spec_accepts_model {cfg : Cfg} (hc : CfgOk cfg) (k n : Nat) (known : List Nat) (ops : List Op) :
     ∀ v ∈ (Machine.run stepM (monInit cfg k n known, init cfg k known) ops).2, v = none :=
   Machine.outputs_of_step stepM Linked (· = none) (fun ms o h => (linked_step ms o h).1)
-    (fun ms o h => (linked_step ms o h).2) ops _ ⟨Inv.init hc k known, R.init cfg k n known⟩
+    (fun ms o h => (linked_step ms o h).2) ops _ ⟨Inv.init hc k known, R.init cfg k n known, R2.init cfg k n known⟩
 
 theorem linked_reach {cfg : Cfg} (hc : CfgOk cfg) (k n : Nat) (known : List Nat) (ops : List Op) :
     Linked (Machine.exec stepM (monInit cfg k n known, init cfg k known) ops) :=
   Machine.invariant_of_step stepM Linked (fun ms o h => (linked_step ms o h).1) ops _
-    ⟨Inv.init hc k known, R.init cfg k n known⟩
+    ⟨Inv.init hc k known, R.init cfg k n known, R2.init cfg k n known⟩
 
 theorem exec_stepM_snd (ops : List Op) : ∀ ms : Mon × Iter,
     (Machine.exec stepM ms ops).2 = Machine.exec step ms.2 ops := by
@@ -129,9 +130,10 @@ theorem monStep_lists (m : Mon) (op : Op) (out : Out) (o : Obs) (h : (monStep m 
     cases hc : (monCore m op out o).2 with
     | none => rfl
     | some k => simp [hc] at h
-  have h1 : (monStep m op out o).1 = (monCore m op out o).1 := by
-    simp only [monStep]; split <;> rfl
-  rw [h1]
+  obtain ⟨_, _, e3, e4, _⟩ := shadowStep_fields (monCore m op out o).1 op out
+  have h1 : (monStep m op out o).1.issued = (monCore m op out o).1.issued := e3
+  have h2 : (monStep m op out o).1.accepted = (monCore m op out o).1.accepted := e4
+  rw [h1, h2]
   cases op <;> rcases out with ⟨_ | p⟩ | _ | _ | b | _ | _ <;> (try cases b) <;>
     simp only [monCore, issuedOf, respondedOf] at hcore ⊢ <;>
     (repeat' split at hcore) <;> (try split) <;> simp_all
@@ -159,8 +161,8 @@ theorem monRun_lists (ops : List Op) : ∀ ms : Mon × Iter, Linked ms →
 theorem each_peer_once {cfg : Cfg} (hc : CfgOk cfg) (k : Nat) (known : List Nat) (ops : List Op) :
     (issuedList (init cfg k known) ops).Nodup := by
   have hl := linked_reach hc k 0 known ops
-  have := (monRun_lists ops (monInit cfg k 0 known, init cfg k known) ⟨Inv.init hc k known, R.init cfg k 0 known⟩).1
-  have hn := hl.2.nodup
+  have := (monRun_lists ops (monInit cfg k 0 known, init cfg k known) ⟨Inv.init hc k known, R.init cfg k 0 known, R2.init cfg k 0 known⟩).1
+  have hn := hl.2.1.nodup
   rw [this] at hn
   simp only [monInit, List.append_nil] at hn
   rw [List.Nodup, List.pairwise_reverse] at hn
@@ -179,10 +181,10 @@ theorem result_sound {cfg : Cfg} (hc : CfgOk cfg) (k : Nat) (known : List Nat) (
   have hp := result_props h.sorted
   refine ⟨hp.1, hp.2.1, fun p hpm => ⟨hp.2.2 p hpm, ?_⟩⟩
   have hl := linked_reach hc k 0 known ops
-  have hacc := (monRun_lists ops (monInit cfg k 0 known, init cfg k known) ⟨Inv.init hc k known, R.init cfg k 0 known⟩).2
+  have hacc := (monRun_lists ops (monInit cfg k 0 known, init cfg k known) ⟨Inv.init hc k known, R.init cfg k 0 known, R2.init cfg k 0 known⟩).2
   have hs : (Machine.exec stepM (monInit cfg k 0 known, init cfg k known) ops).2 = reach cfg k known ops :=
     exec_stepM_snd ops _
-  have := hl.2.accepted p (by rw [hs]; exact hp.2.2 p hpm)
+  have := hl.2.1.accepted p (by rw [hs]; exact hp.2.2 p hpm)
   rw [hacc] at this
   simpa [monInit] using this
 
